@@ -47,7 +47,8 @@ CLAIMS = {
          "signals: same output and scope chain after any number of passes, break ends the innermost loop only, continue the pass only, "
          "empty @each / false-at-entry @for renders @else; loop metadata per pass; non-array is an error. Hypothesis: a ++/-- post clause "
          "steps the init variable. The same tokens -> tree and bytes -> tokens -> tree -> output theorems as C02 for @each bodies with "
-         "@else, @break, @continue, @breakIf, @continueIf (C03_from_source_bytes_to_output; @for is not in the syntactic half). Tied by "
+         "@else and for @for - every header clause optional, the third an expression or an assignment - with @break, @continue, @breakIf, "
+         "@continueIf (C03_from_source_bytes_to_output, C03_lexed_for_loop_renders). Tied by "
          "correspondence; specification also the oracle on enumerated loop shapes.", "8.C03",
          "refinement proof (marker scan = signals) by mutual induction + correspondence + specification oracle"),
  "C04": ("proof", "Frame theorem by induction over the evaluator (a statement changes at most the innermost frame; @if restores the chain), "
@@ -92,9 +93,12 @@ CLAIMS = {
          "before it has seen its type or seen that the next token cannot follow an ILLEGAL one). The parser's loop guards are "
          "regenerated from parser.go. That shape of the lexer's output is a theorem too (Proofs/LexShape.v: for every byte string the "
          "token list ends in EOF or ILLEGAL, holds EOF only last, and an ILLEGAL token is followed by nothing but its own repetition), so "
-         "every SOURCE whose token list holds an ILLEGAL token is rejected (C08_source_with_illegal_token_is_rejected). Not theorems: "
-         "rejection of unterminated blocks / argument lists (oracle on every prefix and mutation of generated templates and exhaustive "
-         "lexeme sequences), and that the models are the code (correspondence, with a watchdog outside the process).", "8.C08",
+         "every SOURCE whose token list holds an ILLEGAL token is rejected (C08_source_with_illegal_token_is_rejected); and an unterminated "
+         "block is rejected (Proofs/OpenBlocks.v): the tokens of any complete statements followed by an @if or @each without its @end - "
+         "holding any complete statements and, nested to any depth, further open blocks - and the end of the input always end in errors. "
+         "Not theorems: cuts inside an argument list or object literal (ParseTotal.v gives program-or-error there; the oracle demands "
+         "the error on every prefix and mutation of generated templates and exhaustive lexeme sequences), and that the models are the "
+         "code (correspondence, with a watchdog outside the process).", "8.C08",
          "termination + program-or-error theorems for the lexer and parser models (measure: remaining tokens, rank on the call graph) + translator-pinned loop guards + exhaustive lexeme-sequence oracle"),
  "C09": ("proof", "Theorem by mutual induction over the evaluator's fuel: on a well-formed program (no nil node where one is dereferenced, "
          "dot keys are identifiers, component arguments are object literals) no expression, statement, block, loop or render of the model "
